@@ -15,3 +15,28 @@ package planar
 //@   requires noNil(g)
 //@ func Area(g)
 //@   requires noNil(g)
+
+// ---------------------------------------------------------------- point in ring / polygon (C09)
+
+// rayIntersect: a point reported on the segment is not also counted as a crossing
+//@ func rayIntersect(p, s, e) (intersects, on)
+//@   pure
+//@   ensures on ==> !intersects
+
+// RingContains is a pure, deterministic function of the ring's vertices and the point (`function`):
+// the polygon and multi-polygon tests are stated in terms of it.
+//@ func RingContains(r, point)
+//@   function
+//@   requires !isnan(point[0]) && !isnan(point[1])
+
+//@ func PolygonContains(p, point)
+//@   function
+//@   requires len(p) >= 1 && !isnan(point[0]) && !isnan(point[1])
+//@   ensures result == (RingContains(p[0], point) && (forall i :: 1 <= i && i < len(p) ==> !RingContains(p[i], point)))
+//@   loop 1: invariant 1 <= i && i <= len(p) && (forall k :: 1 <= k && k < i ==> !RingContains(p[k], point))
+
+//@ func MultiPolygonContains(mp, point)
+//@   pure
+//@   requires !isnan(point[0]) && !isnan(point[1]) && (forall i :: 0 <= i && i < len(mp) ==> len(mp[i]) >= 1)
+//@   ensures result == (exists i :: 0 <= i && i < len(mp) && PolygonContains(mp[i], point))
+//@   loop 1: invariant -1 <= rangeindex && rangeindex < len(mp) && (forall k :: 0 <= k && k <= rangeindex ==> !PolygonContains(mp[k], point))
